@@ -58,7 +58,7 @@ def C19_1(ctx, facts):
     ctx.check(not sl, "TimeoutFuture::poll|no-timer-creation", "no timer is created while polling (the deadline is fixed at issue time)", "a timer is created inside poll: the deadline moves with every poll", sl[0].where() if sl else None)
     resets = [c for c in poll.calls() if c.matches(r"Sleep.*::reset$")]
     ctx.check(not resets, "TimeoutFuture::poll|no-reset", "the timer is never reset", "the timer is reset in poll")
-    sleeps = [c.fn.nkey for c in facts.call_sites_of("tokio::time::sleep", "tokio::time::sleep::sleep") if c.fn.nkey.startswith("service::timeout")]
+    sleeps = [c.fn.nkey for c in facts.call_sites_of("tokio::time::sleep", "tokio::time::sleep::sleep") if c.fn.nkey.startswith(("service::timeout", "<service::timeout"))]
     home = {call.nkey} | {norm(k) for k in call.inlined}
     ctx.check(bool(sleeps) and all(x in home for x in sleeps), "service::timeout|sleep-sites", "the only sleep of the timeout module is created on the Timeout::call path (%s)" % sleeps, "sleep created in %s" % sleeps)
 
